@@ -403,9 +403,22 @@ class ArgumentParser:
                     namespace._passes[flag_name] = default_value
             parser.add_argument(*option["flags"], **kwargs)
 
+        # The value of -isystem and -include may be attached to the flag
+        # (e.g. -isystemdir), which argparse does not support for options
+        # with a single dash and a long name.
+        split_argv = []
+        for arg in argv + self.compiler.options:
+            for flag in ["-isystem", "-include"]:
+                value = arg[len(flag) :]
+                if arg.startswith(flag) and value and value[0] != "-":
+                    split_argv += [flag, value]
+                    break
+            else:
+                split_argv.append(arg)
+
         # Make a best-effort attempt to parse arguments.
         args, unrecognized = parser.parse_known_args(
-            argv + self.compiler.options,
+            split_argv,
             namespace,
         )
         if unrecognized:
